@@ -179,8 +179,8 @@ func VerifC05Two() { c05Run(2, false, false) }
 // VerifC05TwoFull: as Two with every Many outcome and MaxSize 0..3.
 func VerifC05TwoFull() { c05Run(2, false, true) }
 
-// VerifC05Three: three concurrent callers (MaxSize roll-over with a late joiner is reachable).
-func VerifC05Three() { c05Run(3, false, true) }
+// VerifC05Three: three concurrent callers with the quick tier's outcomes and sizes (MaxSize roll-over with a late joiner is reachable).
+func VerifC05Three() { c05Run(3, false, false) }
 
 // VerifC05ThreePreCancel: three callers, cancellation (if any) before the calls start.
 func VerifC05ThreePreCancel() { c05Run(3, true, false) }
